@@ -43,7 +43,66 @@ fn do_factor(ctx: &mut Ctx, f: &[BigInt], p: &BigInt, script: Vec<Vec<u8>>) {
     }
 }
 
+// ---- per-stage correspondence through the feature-guarded wrappers (poly_mod::verif) ----
+fn do_stage_sqfree(ctx: &mut Ctx, f: &[BigInt], p: &BigInt, pusize: usize) -> Vec<(PZ, usize)> {
+    let pf = pz(f);
+    let mut out = vec![];
+    let ans = run(|| {
+        let r = rust_number_theory::poly_mod::verif::squarefree(&pf, p, pusize);
+        let s = show_factors(&r);
+        out = r;
+        s
+    });
+    ctx.emit("pm.sqfree", &[show_pz(&pf), p.to_string(), pusize.to_string()], ans);
+    out
+}
+fn do_stage_degree(ctx: &mut Ctx, f: &[BigInt], p: &BigInt) -> Vec<(PZ, usize)> {
+    let pf = pz(f);
+    let mut out = vec![];
+    let ans = run(|| {
+        let r = rust_number_theory::poly_mod::verif::degree(&pf, p);
+        let s = show_factors(&r);
+        out = r;
+        s
+    });
+    ctx.emit("pm.degree", &[show_pz(&pf), p.to_string()], ans);
+    out
+}
+fn do_stage_split(ctx: &mut Ctx, f: &[BigInt], p: &BigInt, d: usize, script: Vec<Vec<u8>>) {
+    let pf = pz(f);
+    let seed = ctx.rng.next();
+    let (ans, log) = run_rng(seed, script, || {
+        crate::pm::show_polys(&rust_number_theory::poly_mod::verif::final_split(&pf, p, d))
+    });
+    ctx.emit("pm.fsplit", &[show_pz(&pf), p.to_string(), d.to_string(), log], ans);
+}
+/// the three stages chained on one input, each stage fed with the real output of the previous one
+fn stage_chain(ctx: &mut Ctx, f: &[BigInt], p: &BigInt) {
+    let sq = do_stage_sqfree(ctx, f, p, word_of(p));
+    for (a, _k) in sq {
+        let dd = do_stage_degree(ctx, &a.dat, p);
+        for (b, d) in dd {
+            do_stage_split(ctx, &b.dat, p, d, vec![]);
+        }
+    }
+}
+
 pub fn replay(ctx: &mut Ctx, f: &[&str]) -> bool {
+    match (f[0], f.len()) {
+        ("pm.sqfree", 4) => {
+            do_stage_sqfree(ctx, &parse_ints(f[1]), &parse_int(f[2]), f[3].parse().unwrap());
+            return true;
+        }
+        ("pm.degree", 3) => {
+            do_stage_degree(ctx, &parse_ints(f[1]), &parse_int(f[2]));
+            return true;
+        }
+        ("pm.fsplit", 5) => {
+            do_stage_split(ctx, &parse_ints(f[1]), &parse_int(f[2]), f[3].parse().unwrap(), parse_chunks(f[4]));
+            return true;
+        }
+        _ => {}
+    }
     match (f[0], f.len()) {
         ("pm.factor", 5) => {
             let script = parse_chunks(f[4]);
@@ -188,6 +247,9 @@ pub fn generate(ctx: &mut Ctx) {
             }
             let f = finish(ctx, &f, p);
             do_factor(ctx, &f, p, vec![]);
+            if round % 2 == 0 {
+                stage_chain(ctx, &f, p);
+            }
             // (b) equal-degree families: k ≥ 2 distinct irreducibles of one degree, scripted first rounds
             let d = ctx.rng.below(bl.len() as u64) as usize;
             let fam = &bl[d];
